@@ -36,6 +36,8 @@ def main(tier, seed):
         from . import c15b
         c15b.run(chk, tier, jobs)
         vfsk.W.cleanup()
+        from . import urlk
+        urlk.part(chk, tier, jobs)
         vfsk.load('release', log=chk.log)
         part_a(chk, oracle, jobs, B['a_release'], 'release')
     finally:
@@ -50,6 +52,16 @@ def main(tier, seed):
 
 def replay(path):
     d = json.load(open(path))
+    if d.get('site') == 'uri-alias':
+        from mirsym import lsp_replay
+        from . import urlk
+        print(json.dumps(urlk.native_alias(lsp_replay.build_binary()), indent=1))
+        return 0
+    if str(d.get('site', '')).startswith('didchange:'):
+        from mirsym import lsp_replay
+        from . import c15b
+        print(json.dumps(c15b.native_check(lsp_replay.build_binary(), d['cex']), indent=1, default=str))
+        return 0
     chk = Check('C15-replay', 'quick', 0)
     oracle = vfsrun.setup(chk)
     print(json.dumps(vfsrun.native_edit(oracle, d['cex'])[0], indent=1))
